@@ -81,6 +81,40 @@ def Pub.send (c : Codec α) (z : Compressor) (lim : Nat) (p : Pub) (elapsed : Bo
   | .err e => .err e
   | .panic s => .panic s
 
+/-- `SinkExt::feed(item)`: poll_ready, start_send — the item is accepted, nothing is flushed -/
+def Pub.feed (c : Codec α) (z : Compressor) (lim : Nat) (p : Pub) (elapsed : Bool) (a : α) : Res Pub :=
+  match p.pollReady z lim elapsed with
+  | .ok p1 => p1.startSend c z lim a
+  | .err e => .err e
+  | .panic s => .panic s
+
+/-- the ways a caller can drive the publisher's `Sink` before `finish()` -/
+inductive PubOp (α : Type) where
+  | send (elapsed : Bool) (a : α)       -- `send(item)`: accepted and flushed
+  | feed (elapsed : Bool) (a : α)       -- `feed(item)`: accepted, not flushed
+  | flush                               -- `flush()`
+  | ready (elapsed : Bool)              -- a bare `poll_ready` (what `feed` / `send` start with; nothing is handed over)
+
+def PubOp.item : PubOp α → List α
+  | .send _ a => [a]
+  | .feed _ a => [a]
+  | .flush => []
+  | .ready _ => []
+
+def Pub.apply (c : Codec α) (z : Compressor) (lim : Nat) (p : Pub) : PubOp α → Res Pub
+  | .send e a => p.send c z lim e a
+  | .feed e a => p.feed c z lim e a
+  | .flush => .ok p.flush
+  | .ready e => p.pollReady z lim e
+
+def Pub.applyAll (c : Codec α) (z : Compressor) (lim : Nat) (p : Pub) : List (PubOp α) → Res Pub
+  | [] => .ok p
+  | op :: rest =>
+    match p.apply c z lim op with
+    | .ok p' => p'.applyAll c z lim rest
+    | .err x => .err x
+    | .panic s => .panic s
+
 def Pub.sendAll (c : Codec α) (z : Compressor) (lim : Nat) (p : Pub) : List (Bool × α) → Res Pub
   | [] => .ok p
   | (e, a) :: rest =>
